@@ -238,7 +238,23 @@ def main():
         if os.path.exists(rpath):
             result = json.load(open(rpath))
         else:
+            # the harness did not finish (a fatal runtime error of the code under test - e.g. concurrent map writes - takes the
+            # process down, a hang is cut off): the replays it wrote before that are still concrete failing inputs
             broken.append(("harness", "the correspondence harness did not finish (exit %d):\n%s" % (rc, out[-3000:])))
+            salvaged = []
+            rdir = os.path.join(VERIF, "replays", pid)
+            if os.path.isdir(rdir):
+                for fn in sorted(os.listdir(rdir)):
+                    if fn.startswith("%s_%s_%d_" % (pid, tier, seed)) and not fn.endswith("_broken.json"):
+                        try:
+                            rj = json.load(open(os.path.join(rdir, fn)))
+                        except Exception:
+                            continue
+                        salvaged.append({"kind": rj.get("kind"), "summary": rj.get("summary", ""), "replay": os.path.join(rdir, fn),
+                                         "no_failing_input_found": bool(rj.get("no_failing_input_found"))})
+            if salvaged:
+                result = {"violations": salvaged, "evaluations": 0, "distinct_nontrivial": 0, "known_findings_seen": [],
+                          "notes": ["the harness did not finish; the violations listed were recorded before it stopped"]}
     else:
         fcntl.flock(lock, fcntl.LOCK_UN)
 
